@@ -13,21 +13,36 @@ open Hs Hs.Hayson
 def decView (L : Mems) : List (List Char × Res Val) := L.map (fun p => (p.1, fromJson p.2))
 
 /-- **any member order**: an object whose members are a reordering of `L` (distinct names, every value
-decodes) is decoded like `L` in the listed order -/
+decodes, `_kind` — if present — not one of the early-return kinds marker/remove/na) is decoded like `L` in
+the listed order -/
 theorem fromJson_obj_of_perm (ms : Members) (L : Mems) (hp : ms.toList.Perm L)
-    (hd : (L.map (·.1)).Nodup) (hok : ∀ p ∈ L, ∃ v, fromJson p.2 = .ok v) :
+    (hd : (L.map (·.1)).Nodup)
+    (hne : ∀ p ∈ L, p.1 = s "_kind" → isEarly (fromJson p.2) = false)
+    (hok : ∀ p ∈ L, ∃ v, fromJson p.2 = .ok v) :
     fromJson (.obj ms) = runR (decView L) [] [] := by
   rw [fromJson_obj, view_eq_map]
   have hp' : (decView L).Perm (ms.toList.map (fun p => (p.1, fromJson p.2))) := (hp.symm).map _
   have hn : ((decView L).map (·.1)).Nodup := by
     simpa [decView, List.map_map, Function.comp_def] using hd
   have hh : OrderHyp (decView L) := by
-    left
     intro p hp
     obtain ⟨q, hq, e⟩ := List.mem_map.mp hp
     subst e
-    exact hok q hq
+    exact ⟨Or.inl (hok q hq), hne q hq⟩
   exact (runR_perm hp' hn hh [] []).symm
+
+/-- `"_kind": kind` with a kind that is not marker/remove/na, beside members not named `_kind` -/
+theorem noEarly_kindMems (kind : String) (rest : Mems)
+    (hk : isEarly (.ok (.str (s kind))) = false) (hr : ∀ p ∈ rest, p.1 ≠ s "_kind") :
+    ∀ p ∈ kindMem kind :: rest, p.1 = s "_kind" → isEarly (fromJson p.2) = false := by
+  intro p hp hpk
+  rcases List.mem_cons.mp hp with e | hp
+  · subst e; simpa [kindMem, fromJson] using hk
+  · exact absurd hpk (hr p hp)
+
+theorem noEarly_noKind (L : Mems) (hr : ∀ p ∈ L, p.1 ≠ s "_kind") :
+    ∀ p ∈ L, p.1 = s "_kind" → isEarly (fromJson p.2) = false :=
+  fun p hp hk => absurd hk (hr p hp)
 
 theorem numTok_decodes {f : Flt} {j : Json} (h : NumTok f j) :
     fromJson j = .ok (.num { v := f, unit := none }) := by
@@ -41,6 +56,7 @@ theorem read_number {f : Flt} {jv : Json} {u : Option (List Char)} {um : Mems} {
   cases hu with
   | absent =>
     rw [fromJson_obj_of_perm ms _ hp (by simp [kindMem, s])
+      (noEarly_kindMems "number" _ (by decide) (by simp [s]))
       (by
         intro p hp
         simp at hp
@@ -64,6 +80,7 @@ theorem read_number {f : Flt} {jv : Json} {u : Option (List Char)} {um : Mems} {
       simp [decView, kindMem, fromJson, runR, kindStep, s, knownKinds, insertTag, finish, getStr, getTag, getNum]
   | present id sym hsym =>
     rw [fromJson_obj_of_perm ms _ hp (by simp [kindMem, s])
+      (noEarly_kindMems "number" _ (by decide) (by simp [s]))
       (by
         intro p hp
         simp at hp
@@ -96,34 +113,40 @@ theorem read_ref {id : List Char} {dis : Option (List Char)} {dm : Mems} {ms : M
   cases hd with
   | absent =>
     rw [fromJson_obj_of_perm ms _ hp (by simp [kindMem, s])
+      (noEarly_kindMems "ref" _ (by decide) (by simp [s]))
       (by intro p hp; simp at hp; rcases hp with e | e <;> subst e <;> simp [kindMem, fromJson])]
     simp [decView, kindMem, fromJson, runR, kindStep, s, knownKinds, insertTag, leChars, finish, getStr, getTag]
   | present x =>
     rw [fromJson_obj_of_perm ms _ hp (by simp [kindMem, s])
+      (noEarly_kindMems "ref" _ (by decide) (by simp [s]))
       (by intro p hp; simp at hp; rcases hp with e | e | e <;> subst e <;> simp [kindMem, fromJson])]
     simp [decView, kindMem, fromJson, runR, kindStep, s, knownKinds, insertTag, leChars, finish, getStr, getTag]
 
 theorem read_symbol {x : List Char} {ms : Members}
     (hp : ms.toList.Perm [kindMem "symbol", (s "val", .str x)]) : fromJson (.obj ms) = .ok (.sym x) := by
   rw [fromJson_obj_of_perm ms _ hp (by simp [kindMem, s])
+      (noEarly_kindMems "symbol" _ (by decide) (by simp [s]))
     (by intro p hp; simp at hp; rcases hp with e | e <;> subst e <;> simp [kindMem, fromJson])]
   simp [decView, kindMem, fromJson, runR, kindStep, s, knownKinds, insertTag, leChars, finish, getStr, getTag]
 
 theorem read_uri {x : List Char} {ms : Members}
     (hp : ms.toList.Perm [kindMem "uri", (s "val", .str x)]) : fromJson (.obj ms) = .ok (.uri x) := by
   rw [fromJson_obj_of_perm ms _ hp (by simp [kindMem, s])
+      (noEarly_kindMems "uri" _ (by decide) (by simp [s]))
     (by intro p hp; simp at hp; rcases hp with e | e <;> subst e <;> simp [kindMem, fromJson])]
   simp [decView, kindMem, fromJson, runR, kindStep, s, knownKinds, insertTag, leChars, finish, getStr, getTag]
 
 theorem read_date {x : List Char} {ms : Members}
     (hp : ms.toList.Perm [kindMem "date", (s "val", .str x)]) : fromJson (.obj ms) = .ok (lexDate x) := by
   rw [fromJson_obj_of_perm ms _ hp (by simp [kindMem, s])
+      (noEarly_kindMems "date" _ (by decide) (by simp [s]))
     (by intro p hp; simp at hp; rcases hp with e | e <;> subst e <;> simp [kindMem, fromJson])]
   simp [decView, kindMem, fromJson, runR, kindStep, s, knownKinds, insertTag, leChars, finish, getStr, getTag]
 
 theorem read_time {x : List Char} {ms : Members}
     (hp : ms.toList.Perm [kindMem "time", (s "val", .str x)]) : fromJson (.obj ms) = .ok (lexTime x) := by
   rw [fromJson_obj_of_perm ms _ hp (by simp [kindMem, s])
+      (noEarly_kindMems "time" _ (by decide) (by simp [s]))
     (by intro p hp; simp at hp; rcases hp with e | e <;> subst e <;> simp [kindMem, fromJson])]
   simp [decView, kindMem, fromJson, runR, kindStep, s, knownKinds, insertTag, leChars, finish, getStr, getTag]
 
@@ -133,10 +156,12 @@ theorem read_dateTime {x : List Char} {tz : Option (List Char)} {zm : Mems} {ms 
   cases hz with
   | absent =>
     rw [fromJson_obj_of_perm ms _ hp (by simp [kindMem, s])
+      (noEarly_kindMems "dateTime" _ (by decide) (by simp [s]))
       (by intro p hp; simp at hp; rcases hp with e | e <;> subst e <;> simp [kindMem, fromJson])]
     simp [decView, kindMem, fromJson, runR, kindStep, s, knownKinds, insertTag, leChars, finish, getStr, getTag]
   | present z =>
     rw [fromJson_obj_of_perm ms _ hp (by simp [kindMem, s])
+      (noEarly_kindMems "dateTime" _ (by decide) (by simp [s]))
       (by intro p hp; simp at hp; rcases hp with e | e | e <;> subst e <;> simp [kindMem, fromJson])]
     simp [decView, kindMem, fromJson, runR, kindStep, s, knownKinds, insertTag, leChars, finish, getStr, getTag]
 
@@ -144,6 +169,7 @@ theorem read_coord {a b : Flt} {ja jb : Json} {ms : Members} (ha : NumTok a ja) 
     (hp : ms.toList.Perm [kindMem "coord", (s "lat", ja), (s "lng", jb)]) :
     fromJson (.obj ms) = .ok (.coord a b) := by
   rw [fromJson_obj_of_perm ms _ hp (by simp [kindMem, s])
+      (noEarly_kindMems "coord" _ (by decide) (by simp [s]))
     (by
       intro p hp
       simp at hp
@@ -158,6 +184,7 @@ theorem read_xstr {ty x : List Char} {ms : Members}
     (hp : ms.toList.Perm [kindMem "xstr", (s "type", .str ty), (s "val", .str x)]) :
     fromJson (.obj ms) = .ok (.xstr ty x) := by
   rw [fromJson_obj_of_perm ms _ hp (by simp [kindMem, s])
+      (noEarly_kindMems "xstr" _ (by decide) (by simp [s]))
     (by intro p hp; simp at hp; rcases hp with e | e | e <;> subst e <;> simp [kindMem, fromJson])]
   simp [decView, kindMem, fromJson, runR, kindStep, s, knownKinds, insertTag, leChars, finish, getStr, getTag]
 
